@@ -603,6 +603,11 @@ pub fn target_chain_programs(out: &mut Vec<(String, Program)>) {
 /// what is printed.
 const CALL_HEAVY_MAX: usize = 90;
 
+/// the N of a scale-family name (`scale:<shape>:n<N>`)
+pub fn scale_n(fam: &str) -> usize {
+    fam.rsplit(":n").next().and_then(|x| x.parse().ok()).unwrap_or(0)
+}
+
 pub fn scale_programs(thorough: bool, out: &mut Vec<(String, Program)>) {
     let ladder: Vec<usize> = if thorough {
         vec![1, 2, 3, 4, 5, 6, 7, 8, 9, 10, 11, 12, 13, 15, 16, 17, 18, 20, 24, 31, 32, 33, 40, 50, 63, 64, 65, 66, 80, 90, 100, 127, 128, 129, 130, 150, 199, 200, 201, 255, 256, 257, 300]
